@@ -16,6 +16,22 @@ CLAIMED = {
             "Trusted: symx engine (normal-form rewrites validated against z3 and concrete evaluation), z3 5.1, symbolic-aware abs injected "
             "into the module namespace. Bound: index 0..255 quick / 0..1023 thorough; coefficient unbounded.",
             "symbolic execution of the real Python functions (symx) + z3 Int, unsat per path", "3 C12"),
+    "C11": (MC,
+            "Symbolic execution of the real dwt_pad_addition/dwt/idwt/idwt_pad_removal on components whose samples are unbounded symbolic "
+            "integers: one path per (filter pair, depths, size, component); every sample of the reconstruction is proved equal to the input "
+            "and every subband shape equal to subband_width/height. The equalities close in the engine's linear normal form (hash-consed "
+            "floor-division atoms cancel between analysis and synthesis; rewrite schemas are z3-certified); a residual that does not close is "
+            "a z3 query and any model is replayed on the plain code.",
+            "Trusted: symx normal form (schemas certified by z3 in selfcheck, concolic shadow values cross-check every replay), z3 5.1. "
+            "Bound: 49 filter pairs, depth sum <=3 / <=4, sizes <=6x6 sampled / <=12x10 all; samples unbounded.",
+            "symbolic execution of the real Python transform code (symx) with a linear-arithmetic normal form + z3 Int", "3 C11"),
+    "C13": (MC,
+            "Symbolic execution of the real slice_sizes functions with component sizes (and slice_bytes numerator/denominator) as unbounded "
+            "symbolic integers; tiling, padded-size, flag-equivalence, non-negativity and telescoping-sum obligations are z3 queries "
+            "(unsat on every path); slice counts, depths, levels and components are enumerated exhaustively in the box.",
+            "Trusted: symx engine, z3 5.1 (non-linear queries with symbolic denominator are only issued for small slice counts). "
+            "Bound: depths 0..4, slices <=8 / <=16 per axis, denominator <=64 / <=256 concrete plus symbolic.",
+            "symbolic execution of the real Python functions (symx) + z3 Int, unsat per path", "3 C13"),
 }
 
 NA = {
